@@ -276,6 +276,9 @@ def check_text_reader(run, pkg, fname, ndim, style, wtoks, light=False):
     run.ob("R-PROTO", fq, f"{cfg}:timestep", okt_, "the timestep is read from the line (2) where the writer puts it", sp.sstr(e)[:50],
            witness=None if okt_ is not False else "written timestep and read timestep come from different lines", loc=loc, sound=True)
     Lid = rr.atom_loops[0]
+    if Lid not in rr.it.loops:
+        run.ob("R-PROTO", fq, f"{cfg}:count", None, "the atom block is read line by line in a loop over the particle count", "atom lines are not read in a statement loop (comprehension / bulk parser)", loc=loc)
+        return
     L = rr.it.loops[Lid]
     e, at = tr(ae.deep(L.iter[2][0])) if L.iter and L.iter[0] == "call" and L.iter[1] == "builtins.range" and len(L.iter[2]) == 1 else (None, True)
     okn = e == sp.Symbol("L3_0", real=True)
